@@ -26,7 +26,7 @@ class P(b1.Plugin):
     ops = ("clone", "clonefrom")
     driver_traits = (("clone", "Clone"),)
     rule = ("struct/enum definitions with 0-4 fields of leaf types K (instrumented: clone and clone_from observably different, "
-            "calls counted), L, S, F; per field an optional custom clone method; with and without Copy educed (Copy: L/F only; "
+            "calls counted), L, S, F; per field an optional custom clone method; with and without Copy educed (Copy: L, F and KC - Copy with an instrumented, non-bitwise Clone; "
             "methods with Copy only on enums); clone() on every value and a.clone_from(&b) on all or sampled ordered pairs incl. "
             "cross-variant pairs; result observed field by field plus the number of calls on instrumented fields. "
             "distinct_nontrivial = definitions with >=1 field on which at least two different results were observed")
@@ -38,7 +38,7 @@ class P(b1.Plugin):
         self.rng = rng
         kind = rng.choice(["struct", "enum", "enum"])
         copy = rng.random() < 0.3
-        leaves = ["L", "F", "L"] if copy else ["K", "K", "L", "S", "F"]
+        leaves = ["L", "F", "L", "KC", "KC", "PD"] if copy else ["K", "K", "L", "S", "F", "PD"]
         td = gen.make_skeleton(rng, i, kind, leaves)
         metas = ["Clone"] + (["Copy"] if copy else [])
         rng.shuffle(metas)
@@ -48,7 +48,7 @@ class P(b1.Plugin):
             for f in v.fields:
                 req = {"method": None}
                 allow_method = (not copy) or kind == "enum"
-                if allow_method and rng.random() < (0.15 if copy else 0.35):
+                if allow_method and f.ty in gen.METHOD_LEAVES and rng.random() < (0.25 if copy else 0.35):
                     req["method"] = gen.METHOD_LEAVES.index(f.ty)
                 f.req["Clone"] = req
                 f.metas = []
